@@ -1,4 +1,5 @@
 import Verif.Proofs.Lang2Env
+import Verif.Proofs.Lang2OwnStmt
 /-!
 # C02 — Resources are never duplicated or lost at run time
 
@@ -7,9 +8,30 @@ stream `resown`).  A resource is a heap cell with identity; a slot (variable, fi
 entry, storage path) holds a pointer to it.  The theorems below are the run-time guards that keep every
 resource in exactly one slot; they hold for **every** program, state and fuel.
 
-Full-strength statement (not yet proved as one induction over the evaluator; see `props/C02.py`):
-`single_owner` — the invariant "every live resource identity occurs in exactly one slot of the state"
-is preserved by every successful `exec` step of any program.  Proved here are its per-primitive parts.
+Full-strength statement (DESIGN §6 C02): `single_owner` — the invariant `Own s` ("every live resource
+cell is owned by at most one slot: a variable of some activation, a field / element / entry of a cell,
+a storage path; no slot points beyond the heap") holds initially and is preserved by every successful
+evaluation of any *checker-accepted* program.  Not proved as one induction over the whole evaluator:
+unlike the Go interpreter (whose `Transfer` invalidates the source *wrapper object*, so that every
+other holder of it sees an invalidated resource) the model moves a resource by the syntactic `<-`
+forms only (`vacate`); a program that reads a resource variable without `<-` — which the checker
+rejects (C03) — duplicates the pointer in the model.  The general induction therefore needs C03's
+linearity as a hypothesis.  Proved here:
+
+* `single_owner_init`, `single_owner_partial`, `single_owner_block_partial`: the invariant through the
+  resource-moving core — declaration, assignment to a variable or a field (through a variable or a
+  reference), second-value declaration on a variable or a field, `destroy x` (nested resources and
+  events included), `save`, with the sources `<- x`, `<- x!`, `create R()` (no initialiser), `load`,
+  `load(...)!`, `nil` — and every sequence of such statements, for every program, state and fuel;
+* `transfer_single_owner`, `write_single_owner`, `read_vacate_single_owner`, `destroy_single_owner`:
+  the general steps the induction over the remaining evaluator cases would use (they hold for *every*
+  value / location, deep copies of arbitrary object graphs included).
+
+Remaining evaluator cases (no theorem): function / method / initialiser calls (argument transfer,
+`self` aliasing, activation stack), array and dictionary literals and built-ins (`append`, `insert`,
+`remove*` — the location lemmas cover element and entry slots, the built-ins themselves are not
+composed), indexing targets, swap (the second `vacate` reads a state the first has changed),
+optional binding, conditionals, loops, blocks (scope exit), return.
 -/
 namespace Verif.Properties.C02
 open Verif.Model.Lang2
@@ -63,7 +85,84 @@ theorem create_fresh_uuid (p : Program) (n : Nat) (f : String) (cd : CompDecl) (
   unfold callNamed
   split <;> simp_all [bind, M.bind, M.get, M.modify, alloc, pure, M.pure]
 
+/-! ### the single-owner invariant -/
+
+/-- **single_owner (initial state)**: nothing is owned twice in the initial state. -/
+theorem single_owner_init : Own State.init := own_init
+
+/-- **single_owner_partial**: every successful execution of a statement of the resource-moving core
+(`Core`: declaration / assignment / second-value declaration with targets `x`, `h.f` and sources `<- x`,
+`<- x!`, `create R()`, `load`, `load(…)!`, `nil`; `destroy x`; `save`) preserves the single-owner
+invariant — for every program whose destruction-event default arguments do not change the state
+(`EventsQuiet`, implied by `SimpleArg`: literals and field reads, see `events_quiet`), every fuel, return
+type and state.  Missing for the full statement: the evaluator cases listed in the module comment. -/
+theorem single_owner_partial (p : Program) (hq : EventsQuiet p) (n : Nat) (retTy : Ty) (st : Stmt) (s : State)
+    (f : Flow) (hcore : Core p st) (hown : Own s) (hok : (exec p n retTy st s).out = .ok f) :
+    Own (exec p n retTy st s).st :=
+  core_held p hq hcore n retTy s hown f hok
+
+/-- the same for every sequence of core statements (`execStmts`) -/
+theorem single_owner_block_partial (p : Program) (hq : EventsQuiet p) (n : Nat) (retTy : Ty) (ss : List Stmt)
+    (s : State) (f : Flow) (hcore : ∀ st ∈ ss, Core p st) (hown : Own s)
+    (hok : (execStmts p n retTy ss s).out = .ok f) : Own (execStmts p n retTy ss s).st :=
+  core_block_held p hq ss hcore n retTy s hown f hok
+
+/-- the side condition of `single_owner_partial` holds when every default argument of a destruction
+event is a literal or a field read -/
+theorem events_quiet (p : Program)
+    (h : ∀ name params, (p.findComp name).bind (·.destroyEvent) = some params → ∀ q ∈ params, SimpleArg q.2 = true) :
+    EventsQuiet p := eventsQuiet_of_simple p h
+
+/-- **transfer** (`Value.Transfer`), any value: with `v` in flight, the transferred value replaces it in
+flight and the invariant is kept — a resource keeps its identity (no slot gains it), anything else is
+deep-copied into fresh cells each owned once. -/
+theorem transfer_single_owner (s : State) (v v' : Val) (fl : List Val) (h : Held s (v :: fl))
+    (hok : (transfer v s).out = .ok v') : Held (transfer v s).st (v' :: fl) := transfer_held h hok
+
+/-- **guarded write**, any location (variable, field, element, dictionary entry): the value in flight
+goes into the slot; the owned pointers of the new state are a sub-multiset of the old ones. -/
+theorem write_single_owner (l : Loc) (v : Val) (s : State) (fl : List Val) (h : Held s (v :: fl))
+    (hok : (writeLoc l v s).out = .ok ()) : Held (writeLoc l v s).st fl := h.sub (writeLoc_sub l v s fl hok)
+
+/-- **read + vacate**, any non-temporary location (second-value declaration, swap): what the slot held
+is in flight afterwards and, if it is a resource, no longer in the slot. -/
+theorem read_vacate_single_owner (l : Loc) (s : State) (old : Val) (fl : List Val) (hl : l.isTemp = false)
+    (hr : (readLoc l s).out = .ok old) (hv : (vacate l old s).out = .ok ()) (h : Held s fl) :
+    Held (vacate l old s).st (old :: fl) := vacate_held hl hr hv h
+
+/-- **destroy**, any value (nested resources included): nothing new is owned. -/
+theorem destroy_single_owner (p : Program) (hq : EventsQuiet p) (n : Nat) (v : Val) (s : State) (fl : List Val)
+    (h : Held s fl) (hok : (destroyVal p n v s).out = .ok ()) : Held (destroyVal p n v s).st fl :=
+  h.sub (destroyVal_sub p hq n v s fl hok)
+
 /-! ### non-vacuity -/
+
+/-- a program with a resource `R` (destruction event with a field-read default argument) -/
+def exProg : Program :=
+  ⟨[], [⟨"R", true, [], none, [], some [("tag", .member false false (.var "self") "uuid")]⟩]⟩
+
+example : EventsQuiet exProg := events_quiet exProg (by
+  intro name params h q hq
+  simp only [exProg, Program.findComp] at h
+  by_cases e : ("R" == name) = true
+  · simp [List.find?, e] at h; subst h; simp at hq; subst hq; rfl
+  · simp [List.find?, e] at h)
+
+-- `let a <- create R(); let b <- a; destroy b` are core statements of `exProg`, run to completion, and
+-- leave one dead cell, `a` and `b` invalid, one event
+example : (∀ st ∈ [Stmt.decl true "a" (.res "R") (.create "R" []), .decl true "b" (.res "R") (.move (.var "a")),
+      .expr (.destroy (.var "b"))], Core exProg st) := by
+  intro st h
+  simp only [List.mem_cons, List.mem_nil_iff, or_false] at h
+  rcases h with rfl | rfl | rfl
+  · exact .decl _ _ _ _ (.create "R" _ rfl ⟨by decide, by decide, by decide⟩ rfl rfl)
+  · exact .decl _ _ _ _ (.moveVar _)
+  · exact .destroyVar _
+
+example : ((execStmts exProg 10 .void [.decl true "a" (.res "R") (.create "R" []),
+      .decl true "b" (.res "R") (.move (.var "a")), .expr (.destroy (.var "b"))] State.init).st.events.length = 1) := by
+  decide
+
 
 example : ∃ s : State, s.env.lookup "a" = some (.ptr 0) ∧ isResVal s.heap (.ptr 0) = true :=
   ⟨{ State.init with env := [("a", .ptr 0)], heap := [⟨.comp "R" [], .res "R", true, 0, true⟩] }, rfl, rfl⟩
